@@ -269,3 +269,113 @@ func c13ClockPerHandshake(c *Ctx) {
 		c.Unresolved("C13.R12", "(*x509.Certificate).Verify call sites under pkg/mtls")
 	}
 }
+
+// c13TrustAnchorsOnlyFromConfig (R13): the set of trust anchors is the configured CA and nothing else.
+// The *x509.CertPool that hooks.GetX509Pool builds from `ca_cert` becomes both RootCAs and ClientCAs (R3). Everything added
+// to that pool afterwards is a trust anchor: a peer whose chain ends there passes verify_client / server verification.
+// Clause: under pkg/mtls (the forked crypto excluded) every (*x509.CertPool).AddCert / AppendCertsFromPEM call has a
+// receiver that was created by x509.NewCertPool() in the same function - a pool that arrives as a parameter, a field or
+// another function's result is somebody's trust pool and is not written; and in GetX509Pool what is appended derives
+// from the function's CA parameter only.
+func c13TrustAnchorsOnlyFromConfig(c *Ctx) {
+	n := 0
+	ord := ordCounter{}
+	var fns []*ssa.Function
+	for fn := range c.all {
+		if fn.Pkg != nil && strings.Contains(fn.Pkg.Pkg.Path(), "/pkg/mtls") && !strings.Contains(fn.Pkg.Pkg.Path(), "/crypto/") && len(fn.Blocks) > 0 && fn.Synthetic == "" {
+			fns = append(fns, fn)
+		}
+	}
+	sort.Slice(fns, func(i, j int) bool { return fns[i].String() < fns[j].String() })
+	var fromParam func(v ssa.Value, fn *ssa.Function, d int) bool
+	fromParam = func(v ssa.Value, fn *ssa.Function, d int) bool {
+		if d > 6 {
+			return false
+		}
+		switch x := v.(type) {
+		case *ssa.Parameter:
+			return true
+		case *ssa.Convert:
+			return fromParam(x.X, fn, d+1)
+		case *ssa.ChangeType:
+			return fromParam(x.X, fn, d+1)
+		case *ssa.Slice:
+			return fromParam(x.X, fn, d+1)
+		case *ssa.Extract:
+			// the content of the file the parameter names
+			if call, ok := x.Tuple.(*ssa.Call); ok && strings.HasSuffix(calleeName(call.Common()), ".ReadFile") && len(call.Common().Args) == 1 {
+				return fromParam(call.Common().Args[0], fn, d+1)
+			}
+			return false
+		case *ssa.Phi:
+			for _, e := range x.Edges {
+				if !fromParam(e, fn, d+1) {
+					return false
+				}
+			}
+			return true
+		}
+		return false
+	}
+	for _, fn := range fns {
+		forEachInstr(fn, false, func(f *ssa.Function, in ssa.Instruction) {
+			call, ok := in.(*ssa.Call)
+			if !ok {
+				return
+			}
+			callee := call.Common().StaticCallee()
+			if callee == nil || callee.Signature.Recv() == nil || !strings.HasSuffix(callee.Signature.Recv().Type().String(), "x509.CertPool") {
+				return
+			}
+			if callee.Name() != "AddCert" && callee.Name() != "AppendCertsFromPEM" {
+				return
+			}
+			n++
+			recv := call.Common().Args[0]
+			// fresh: the result of x509.NewCertPool() in this function (possibly through a load of a local / field of a local literal)
+			fresh := false
+			var origin func(v ssa.Value, d int) bool
+			origin = func(v ssa.Value, d int) bool {
+				if d > 6 {
+					return false
+				}
+				switch x := v.(type) {
+				case *ssa.Call:
+					return strings.HasSuffix(calleeName(x.Common()), "x509.NewCertPool")
+				case *ssa.UnOp:
+					// load of a field of a local literal: find the store
+					if fa, ok := x.X.(*ssa.FieldAddr); ok {
+						if _, isAlloc := fa.X.(*ssa.Alloc); isAlloc {
+							for _, r := range refs(fa.X) {
+								if fa2, ok := r.(*ssa.FieldAddr); ok && fa2.Field == fa.Field {
+									for _, rr := range refs(fa2) {
+										if st, ok := rr.(*ssa.Store); ok && st.Addr == ssa.Value(fa2) {
+											return origin(st.Val, d+1)
+										}
+									}
+								}
+							}
+						}
+					}
+				case *ssa.Phi:
+					for _, e := range x.Edges {
+						if !origin(e, d+1) {
+							return false
+						}
+					}
+					return true
+				}
+				return false
+			}
+			fresh = origin(recv, 0)
+			ok2 := true
+			if f.Name() == "GetX509Pool" && callee.Name() == "AppendCertsFromPEM" && len(call.Common().Args) == 2 {
+				ok2 = fromParam(call.Common().Args[1], f, 0)
+			}
+			c.Check("C13.R13", ord.next(f, "trust-anchors-only-from-config"), call.Pos(), fresh && ok2, "the pool written is created here by x509.NewCertPool() (and GetX509Pool feeds it from its CA parameter only)", "certificates are added to a certificate pool that this function did not create (or GetX509Pool adds material other than the configured CA): the pool built from ca_cert is installed as RootCAs and ClientCAs, so everything added to it is a trust anchor - a peer from another hierarchy passes verify_client / server verification")
+		})
+	}
+	if n < 1 {
+		c.Unresolved("C13.R13", "CertPool.AddCert / AppendCertsFromPEM calls under pkg/mtls")
+	}
+}
